@@ -10,8 +10,8 @@ Local Close Scope Qc_scope. Local Close Scope Q_scope.
 
 (* never more than min(m, n) Arnoldi steps, i.e. products with A besides the one for the initial residual; for every
    scalar/vector instance (floats included), operator, solve oracle, flag value, tolerance and batch of columns *)
-Theorem C13_products : forall (T V : Type) (o : ops T) (vo : vops T V) (A : V -> V) selfref zero_nan solve flag pad_buf tol mfac m n (bs x0s : list V),
-  gsteps (gmres_fwd o vo A solve flag pad_buf selfref zero_nan tol mfac m n bs x0s) <= Nat.min m n.
+Theorem C13_products : forall (T V : Type) (o : ops T) (vo : vops T V) (A : V -> V) selfref zero_nan abs_clip solve flag pad_buf tol mfac m n (bs x0s : list V),
+  gsteps (gmres_fwd o vo A solve flag pad_buf selfref zero_nan abs_clip tol mfac m n bs x0s) <= Nat.min m n.
 Proof. exact @gmres_products. Qed.
 Print Assumptions C13_products.
 
@@ -24,11 +24,11 @@ Print Assumptions C13_mgs_orthogonal.
 (* one step of arnoldi_fact's body without clipping: the basis stays orthonormal and the new column of H satisfies the
    Arnoldi relation  A q_idx = sum_{i <= idx+1} H[i, idx] q_i  (tested against every vector u) *)
 Theorem C13_arnoldi_step : forall (T V : Type) (o : ops T) (vo : vops T V), arn_laws o vo ->
-  forall (A : V -> V) selfref tol (c : acol (T:=T) (V:=V)),
+  forall (A : V -> V) selfref abs_clip tol (c : acol (T:=T) (V:=V)),
   orthonormal o vo (aqs c) ->
-  let c' := arnoldi_step o vo A selfref tol c in
+  let c' := arnoldi_step o vo A selfref abs_clip tol c in
   forall w hs, mgs vo (aqs c) (A (alast c)) [] = (w, hs) ->
-  next_q o vo selfref tol w (vnrm o vo w) = vdivs vo w (vnrm o vo w) -> vnrm o vo w <> o0 o ->
+  next_q o vo selfref (step_thr o abs_clip tol (ahs c ++ [rev hs ++ [vnrm o vo w]])) w (vnrm o vo w) = vdivs vo w (vnrm o vo w) -> vnrm o vo w <> o0 o ->
   orthonormal o vo (aqs c') /\
   exists hcol, ahs c' = ahs c ++ [hcol] /\ length hcol = S (length (aqs c)) /\ aqs c' = aqs c ++ [alast c'] /\
     forall u, vdot vo u (A (alast c)) = lsum o (zipw (fun h q => omul o h (vdot vo u q)) hcol (aqs c')).
@@ -38,10 +38,10 @@ Print Assumptions C13_arnoldi_step.
 (* the whole loop of one column: after k unclipped steps the basis q_0..q_k is orthonormal, its last element is the loop
    variable, and every filled column j of H satisfies the Arnoldi relation (AInv) *)
 Theorem C13_arnoldi_invariant : forall (T V : Type) (o : ops T) (vo : vops T V), arn_laws o vo ->
-  forall (A : V -> V) (selfref zero_nan : bool) (tol : T) (r0 : V) (K : nat), vnrm o vo r0 <> o0 o ->
+  forall (A : V -> V) (selfref zero_nan abs_clip : bool) (tol : T) (r0 : V) (K : nat), vnrm o vo r0 <> o0 o ->
   start_den o zero_nan (vnrm o vo r0) = vnrm o vo r0 ->
-  (forall k, k < K -> unclipped o vo A selfref tol (acs o vo A selfref zero_nan tol r0 k)) ->
-  forall k, k <= K -> AInv o vo A k (acs o vo A selfref zero_nan tol r0 k).
+  (forall k, k < K -> unclipped o vo A selfref abs_clip tol (acs o vo A selfref zero_nan abs_clip tol r0 k)) ->
+  forall k, k <= K -> AInv o vo A k (acs o vo A selfref zero_nan abs_clip tol r0 k).
 Proof. exact @arnoldi_invariant_b. Qed.
 Print Assumptions C13_arnoldi_invariant.
 
